@@ -19,7 +19,7 @@ package builder
 //@   requires builder != nil && !held(builder.buildLock)
 //@   ensures [C10] agreement: (result == nil) <==> (!blank(ruleString) && !LexErrs(ruleString) && !SynErrs(ruleString) && !SemErrs(ruleString))
 //@   ensures [C10] allornothing: result != nil ==> builder.Kc == old(builder.Kc)
-//@   ensures [C08] installed: result == nil ==> fresh(builder.Kc) && wfKc(builder.Kc)
+//@   ensures [C08] installed: result == nil ==> fresh(builder.Kc) && wfKc(builder.Kc) && len(builder.Kc.RuleEntities) > 0
 //@   modifies builder.Kc
 //@   use collectsortindex(0, 1, kc.SortRules, kc.RuleEntities, kc.SortRulesIndexMap)
 //@   loop 0 invariant shape: kc != nil && fresh(kc) && wfParsed(kc) && kc.SortRulesIndexMap != nil && fresh(kc.SortRulesIndexMap) && emptymap(kc.SortRulesIndexMap) && builder.Kc == old(builder.Kc) && held(builder.buildLock)
@@ -42,6 +42,7 @@ package builder
 //@   ensures [C08] kept: len(ruleNames) > 0 ==> forall k: string :: (k in builder.Kc.RuleEntities) ==> (k in RE0) && builder.Kc.RuleEntities[k] == RE0[k] && (forall qi :: lo(ruleNames) <= qi && qi < hi(ruleNames) ==> at(ruleNames, qi) != k)
 //@   ensures [C08] removedonlynamed: len(ruleNames) > 0 ==> forall k: string :: (k in RE0) && !(k in builder.Kc.RuleEntities) ==> exists qi :: lo(ruleNames) <= qi && qi < hi(ruleNames) && at(ruleNames, qi) == k
 //@   modifies builder.Kc
+//@   nopanic
 //@   loop 0 invariant shape: held(builder.buildLock) && builder.Kc == old(builder.Kc) && newRuleEntities != nil && fresh(newRuleEntities) && len(ruleNames) > 0
 //@   loop 0 invariant kept: forall k: string :: (k in newRuleEntities) ==> (k in visited) && (k in RE0) && newRuleEntities[k] == RE0[k] && (forall qi :: lo(ruleNames) <= qi && qi < hi(ruleNames) ==> at(ruleNames, qi) != k)
 //@   loop 0 invariant dropped: forall k: string :: (k in visited) && !(k in newRuleEntities) ==> exists qi :: lo(ruleNames) <= qi && qi < hi(ruleNames) && at(ruleNames, qi) == k
@@ -64,3 +65,9 @@ package builder
 //@   loop 0 invariant sofar: held(builder.buildLock) && len(exist) == rangeindex + 1 && -1 <= rangeindex && rangeindex < len(ruleNames) && (isnil(exist) || fresh(arr(exist))) && lo(exist) == 0
 //@   loop 0 invariant agree: forall qi :: 0 <= qi && qi <= rangeindex ==> exist[qi] == (ruleNames[qi] in builder.Kc.RuleEntities)
 //@   loop 0 decreases len(ruleNames) - rangeindex
+
+//@ func NewRuleBuilder
+//@   props C08
+//@   ensures fresh(result) && result != nil && result.Dc == dc && fresh(result.Kc) && wfKc(result.Kc) && emptymap(result.Kc.RuleEntities)
+//@   modifies nothing
+//@   nopanic
